@@ -10,6 +10,7 @@ import (
 	"errors"
 	"fmt"
 	"os"
+	"runtime/debug"
 	"sort"
 	"strings"
 	"sync"
@@ -123,11 +124,14 @@ type c9thread struct {
 	ret            chan error
 	status         string
 	step           int
+	released       bool
 }
 
-func isRefusal(err error) bool {
-	return err != nil && strings.Contains(err.Error(), "process already pending")
-}
+// A refusal is recognised by what it DOES, never by the wording of its error: Execute returns a non-nil error without
+// having registered anything for the session (no subscription handed out, nothing run). In the `race` and `stress`
+// scripts nothing else can make Execute return an error before its process runs (all timers are at 1 h, no failure
+// is scripted there), so there "returned an error before Run" is the refusal.
+func refusedBy(err error, subsDuring int) bool { return err != nil && subsDuring == 0 }
 
 var c9hookOnce sync.Once
 
@@ -150,6 +154,14 @@ const c9wait = 8 * time.Second
 //	enter (pass admission; if admitted, be driven into Run), finish (end the run by its outcome ok|fail|cancel).
 //	=> st=<I|Y|R|X|D per thread>;max=<sid=max concurrently running>;pend=<sid=0|1>;leak=<sid=live subs+streams, quiescent sids>
 func c9race(a []string) string {
+	defer func() {
+		if r := recover(); r != nil {
+			if os.Getenv("VERIF_DUMP") != "" {
+				fmt.Fprintln(os.Stderr, "PANIC:", r, string(debug.Stack()))
+			}
+			panic(r)
+		}
+	}()
 	c9installHook()
 	w := newC9World()
 	ths := []*c9thread{}
@@ -179,7 +191,7 @@ func c9race(a []string) string {
 				t.status = "Y"
 			case err := <-t.ret:
 				t.status = "E"
-				if isRefusal(err) {
+				if err != nil {
 					t.status = "X"
 				}
 			case <-time.After(c9wait):
@@ -187,6 +199,7 @@ func c9race(a []string) string {
 			}
 		case t.step == 2 && t.status == "Y":
 			close(t.release)
+			t.released = true
 			deadline := time.Now().Add(c9wait)
 			last := time.Time{}
 		loop:
@@ -194,7 +207,7 @@ func c9race(a []string) string {
 				select {
 				case err := <-t.ret:
 					t.status = "E"
-					if isRefusal(err) {
+					if err != nil {
 						t.status = "X"
 					}
 					break loop
@@ -259,7 +272,7 @@ func c9race(a []string) string {
 	out := "st=" + strings.Join(st, ",") + ";max=" + w.stats.maxima(keys) + ";pend=" + joinOr(pend, ",") + ";leak=" + joinOr(leak, ",")
 	// tear down: let everything return
 	for _, t := range ths {
-		if t.step >= 1 && t.status == "Y" {
+		if t.step >= 1 && t.status == "Y" && !t.released {
 			close(t.release)
 		}
 		t.cancel()
@@ -553,7 +566,7 @@ func (w *c9world) session(name, role string, np int, oc, second string) string {
 		switch {
 		case err == nil:
 			r = "ok"
-		case isRefusal(err):
+		case refusedBy(err, subsNow()):
 			r = "refused"
 		default:
 			r = "err"
@@ -615,7 +628,7 @@ collect:
 	for refused+other < n-1 {
 		select {
 		case err := <-rets:
-			if isRefusal(err) {
+			if err != nil {
 				refused++
 			} else {
 				other++
